@@ -398,9 +398,13 @@ class Engine:
             if st is None: continue
             g, env = st
             nv = visits.get(ctrl, 0) + 1; visits[ctrl] = nv
-            if nv > s.opts.get('max_visits', 16) and s.concrete is None and not isinstance(g, bool):
-                # loop bound ("unwinding assertion"): must be unreachable, decided by the engine-limit query
-                s.add_check(g, 'ENGINE-LIMIT loop bound %d reached at %s' % (nv - 1, ctrl[0][:3]), 'limit'); continue
+            if s.concrete is None and not isinstance(g, bool):
+                if s.opts.get('feas') and nv > s.opts.get('feas_at', 6):
+                    # revisit of a control point: drop the path if its guard is unsatisfiable (decided by an incremental solver)
+                    if not s.feasible(g): continue
+                if nv > s.opts.get('max_visits', 16):
+                    # loop bound ("unwinding assertion"): must be unreachable, decided by the engine-limit query
+                    s.add_check(g, 'ENGINE-LIMIT loop bound %d reached at %s' % (nv - 1, ctrl[0][:3]), 'limit'); continue
             while True:
                 if ctrl[0][0] == 'done':
                     emit(ctrl, g, None); break
@@ -442,15 +446,17 @@ class Engine:
             env = env[:-1] + [dict(env[-1])]
         return env
     def feasible(s, g):
+        """is the path guard satisfiable under the constraints collected so far?  (incremental finite-domain SAT)"""
         s.stats['loopchk'] += 1
-        if s.feas is None: s.feas = z3.Solver(); s.feas.set('timeout', 20000)
+        if s.feas is None: s.feas = z3.SolverFor('QF_FD'); s.feas.set('timeout', 10000)
         S = s.feas
+        g = name(g)
+        if z3.is_not(g): g = name(gand(g, g) if False else z3.And(g, True))
         for a in s.assumes[s.feas_n[0]:]: S.add(a)
         s.feas_n[0] = len(s.assumes)
         for a in name.defs[s.feas_n[1]:]: S.add(a)
         s.feas_n[1] = len(name.defs)
-        S.push(); S.add(g); r = S.check(); S.pop()
-        return r != z3.unsat
+        return S.check(g) != z3.unsat
     def goto(s, f, ctrl, frm_bi, label, g):
         bi = f.bidx[label]; b = f.blocks[bi]; frm = f.blocks[frm_bi].label
         vals = []; k = 0
@@ -823,6 +829,9 @@ class Engine:
             if all(isinstance(y, int) for _, y in alts_of(x)): ret(x); return
             s.assume(gor(gnot(g), z3.ULT(x, z3.BitVecVal(n, w))))
             ret(GV([(name(x == z3.BitVecVal(i, w)), i) for i in range(n)], w)); return
+        if nm == 'vf_param':        # harness configuration parameter (concrete, from the harness config)
+            i = A(0); ps = s.opts.get('params', [])
+            ret(ps[i] if isinstance(i, int) and i < len(ps) else 0, 32); return
         if nm == 'vf_witness':
             for gi, i in s.ia(A(0), g, 'witness id'):
                 s.witness[i] = gor(s.witness.get(i, False), gand(g, gi))
